@@ -25,8 +25,7 @@ def bits11 (i : Nat) : List Bool := (List.range 11).map (fun k => i.testBit (10 
 
 /-- position of a word in the list by plain search -/
 def idxOf (ws : List Str) (w : Str) : Option Nat :=
-  let i := ws.idxOf w
-  if i < ws.length then some i else none
+  if ws.idxOf w < ws.length then some (ws.idxOf w) else none
 
 /-- the words are list words, their number is legal, and the trailing checksum bits equal the
 leading bits of the digest of the ENT/8-byte entropy they encode -/
@@ -40,6 +39,19 @@ def checksumOK (D : Bytes → Bytes) (L : Lang) (toks : List Str) : Bool :=
     let entBits := all.take (n * 11 - n / 3)
     let csBits := all.drop (n * 11 - n / 3)
     csBits == (bits (D (packBytes entBits))).take (n / 3)
+
+/-- first token that is not a list word, with its position -/
+def firstUnknown (ws : List Str) : List Str → Nat → Option (Str × Nat)
+  | [], _ => none
+  | t :: ts, i => if (idxOf ws t).isSome then firstUnknown ws ts (i + 1) else some (t, i)
+
+/-- what validation must say about a token list (C03, C15): wrong count; else the first unknown
+token; else the checksum; else valid -/
+def classify (D : Bytes → Bytes) (L : Lang) (toks : List Str) : Res Unit :=
+  if ¬ ValidWordCount toks.length then .err .wordLen
+  else match firstUnknown L.words toks 0 with
+    | some (t, i) => .err (.unknownWord t i)
+    | none => if checksumOK D L toks then .ok () else .err .checksum
 
 /-- tokens separated by exactly one U+0020 in the NFKD form (what the generator emits, up to NFKD) -/
 def validStrict (D : Bytes → Bytes) (L : Lang) (s : Str) : Bool :=
